@@ -526,6 +526,18 @@ func gen(t *rapid.T) Case {
 		for j := 0; j < n; j++ {
 			s.Outcomes = append(s.Outcomes, genOutcome(t, "outcome"))
 		}
+		// correlated faults: in one round every task on one host fails (a node problem), everything else is fine
+		if !slowShard() && rapid.IntRange(0, 3).Draw(t, "hostFault") == 0 {
+			h := rapid.IntRange(0, 2).Draw(t, "faultyHost")
+			kind := rapid.SampledFrom([]string{"err-src", "err-error"}).Draw(t, "hostFaultKind")
+			for j := 0; j < n; j++ {
+				if c.Tasks[j].Host == h {
+					s.Outcomes[j] = kind
+				} else {
+					s.Outcomes[j] = "ok"
+				}
+			}
+		}
 		c.Steps = append(c.Steps, s)
 		state = trans[op].dst
 	}
@@ -556,6 +568,13 @@ func TestFixed(t *testing.T) {
 		Steps: []Step{{"START_ACTIVITY", []string{"ok", "err-src", "ok"}}, {"STOP_ACTIVITY", []string{"ok", "err-error", "ok"}}, {"RESET", []string{"ok", "err-error", "ok"}}, {"CONFIGURE", []string{"ok", "err-src", "ok"}}}}, vh.Confirmed(run))
 	vh.Fixed(t, prop, "critical-error-stop", Case{Tasks: []TaskSpec{{0, true, "direct", "ok", "ok"}, {1, true, "direct", "ok", "ok"}},
 		Steps: []Step{{"START_ACTIVITY", ok(2)}, {"STOP_ACTIVITY", []string{"ok", "err-error"}}}}, vh.Confirmed(run))
+	// a critical and non-critical tasks of one host fail in the same round, whichever of them the core looks at first (repeated:
+	// the order is a map iteration inside the core)
+	for i := 0; i < 6; i++ {
+		op := []string{"START_ACTIVITY", "RESET"}[i%2]
+		vh.Fixed(t, prop, fmt.Sprintf("same-host-critical-and-noncritical-fail-%d", i), Case{Tasks: []TaskSpec{{0, false, "direct", "ok", "ok"}, {0, true, "direct", "ok", "ok"}, {0, false, "basic", "ok", "ok"}, {1, true, "direct", "ok", "ok"}},
+			Steps: []Step{{op, []string{"err-src", "err-error", "err-src", "ok"}}}}, vh.Confirmed(run))
+	}
 	vh.Fixed(t, prop, "nothing-to-command-walk", Case{CallOnly: true, Tasks: nil, Steps: []Step{{"START_ACTIVITY", []string{"ok"}}, {"STOP_ACTIVITY", []string{"ok"}}, {"RESET", []string{"ok"}}, {"CONFIGURE", []string{"ok"}}}}, vh.Confirmed(run))
 	if !vh.Open("KF-C02-noncritical-undeployable") {
 		vh.Fixed(t, prop, "noncritical-unplaceable", canaryNC(), vh.Confirmed(run))
@@ -577,4 +596,13 @@ func TestCanaryNoncriticalUndeployable(t *testing.T) {
 func TestCanaryZeroTasks(t *testing.T) {
 	defer simworld.Discard()
 	vh.Canary(t, prop, "KF-C02-zero-tasks-configure-hangs", Case{CallOnly: true}, vh.Confirmed(run))
+}
+
+
+// TestFixedSlow: a critical task that never answers while the other targets do. Costs the compiled-in 90 s (120 s for
+// CONFIGURE) response timeout per case, so it runs as a shard of its own beside the fast ones.
+func TestFixedSlow(t *testing.T) {
+	defer simworld.Discard()
+	vh.Fixed(t, prop, "critical-silent-others-answer-start", Case{Tasks: []TaskSpec{{0, true, "direct", "ok", "ok"}, {1, true, "direct", "ok", "ok"}, {0, false, "direct", "ok", "ok"}},
+		Steps: []Step{{"START_ACTIVITY", []string{"silent", "ok", "ok"}}}}, vh.Confirmed(run))
 }
